@@ -1,5 +1,8 @@
 """C02 — strictness: no coercion across value kinds, in every embedding context."""
 import itertools
+import yaml
+import json
+import io
 import re
 
 from .. import env, genval, model, drive
@@ -65,7 +68,7 @@ VALUES = {
     'compiled-pattern-bytes': [re.compile(b'ab+')],
 }
 NESTED_ONLY = ('compiled-pattern-str', 'compiled-pattern-bytes')
-TOP_LEVEL_CONTEXTS = ('top', 'union-member', 'optional', 'annotated')
+TOP_LEVEL_CONTEXTS = ('top', 'union-member', 'optional', 'annotated', 'yaml-document', 'json-document')
 SEQ_KINDS = ('list', 'tuple', 'custom-sequence')
 MAP_KINDS = ('dict', 'custom-mapping')
 STR_KINDS = ('str-numeric', 'str-empty', 'str-other')
@@ -167,6 +170,8 @@ def contexts():
         'dataclass-constructor': (lambda T: _dc([FieldM('inner_val', T)]), lambda v: {'inner_val': v}),
         'dataclass-constructor-positional': (lambda T: _dc([FieldM('alpha', Ty('int')), FieldM('inner_val', T)], in_format=('struct', 'tuple')), lambda v: [0, v]),
         'dataclass-replace': (lambda T: _dc([FieldM('inner_val', T)]), lambda v: {'inner_val': v}),
+        'yaml-document': (lambda T: T, _as_document), 'json-document': (lambda T: T, _as_document),
+        'yaml-document-in-class': (lambda T: _dc([FieldM('inner_val', T)]), lambda v: {'inner_val': _as_document(v)}),
         # a None default does not make the field's type optional
         'dataclass-field-default-none': (lambda T: _dc([FieldM('inner_val', T, 'val', None)]), lambda v: {'inner_val': v}),
         'dataclass-field-kwonly-default-none': (lambda T: _dc([FieldM('alpha', Ty('int')), FieldM('inner_val', T, 'val', None, kw_only=True)],
@@ -183,7 +188,18 @@ CALLS = {
     'dataclass-constructor': lambda T, d: T(**d),
     'dataclass-constructor-positional': lambda T, d: T(*d),
     'dataclass-replace': lambda T, d: T.make_unchecked(inner_val=None).__replace__(**d),
+    # the same value arriving as a document: a null / empty document is None, not an empty mapping
+    'yaml-document': lambda T, v: env.m_io.from_yaml(io.StringIO(yaml.safe_dump(v, sort_keys=False)), T),
+    'json-document': lambda T, v: env.m_io.from_json(io.StringIO(json.dumps(v)), T),
+    'yaml-document-in-class': lambda T, d: T.from_yamls(yaml.safe_dump(d, sort_keys=False)),
 }
+
+
+def _as_document(v):
+    from ..entrypoints import jsonable, _only_plain_carriers
+    if not (_only_plain_carriers(v) and jsonable(v)):
+        raise TypeError('not a text document')
+    return v
 
 
 def run(ctx):
@@ -303,6 +319,6 @@ def post_merge(counters, sets, tier):
     want = len(VALUES) * len(targets())
     if len(sets.get('cells', ())) < want:
         reasons.append(f"only {len(sets.get('cells', ()))} of {want} matrix cells were visited")
-    if len([c for c in sets.get('contexts', ()) if '>' not in c]) < 17:
+    if len([c for c in sets.get('contexts', ()) if '>' not in c]) < 20:
         reasons.append("not every embedding context was visited")
     return reasons
